@@ -204,6 +204,15 @@ func generate(tier string, r *rng.R) []fw.Case {
 	for i := 0; i < n; i++ {
 		cs = append(cs, genRandom(r.Fork()))
 	}
+	// loaded trees (real ProcessTemplates, iterator expansion) + histories of runtime writes
+	cs = append(cs, fixedWrites()...)
+	nw := 600
+	if tier == "thorough" {
+		nw = 10000
+	}
+	for i := 0; i < nw; i++ {
+		cs = append(cs, genRandomWrites(r.Fork()))
+	}
 	return cs
 }
 
@@ -211,6 +220,9 @@ func generate(tier string, r *rng.R) []fw.Case {
 // defined by at least two sources, i.e. the precedence rule has something to decide.
 func nontrivial(input, obs string) bool {
 	in, err := sx.Parse(input)
+	if err == nil && in.IsList && in.Len() == 5 {
+		return nontrivialW(in)
+	}
 	if err != nil || in.Len() != 4 {
 		return false
 	}
@@ -279,6 +291,9 @@ func dropKey(n *sx.Node, k string) *sx.Node {
 
 func shrinkCands(input string) []string {
 	in, err := sx.Parse(input)
+	if err == nil && in.IsList && in.Len() == 5 {
+		return shrinkCandsW(in)
+	}
 	if err != nil || in.Len() != 4 {
 		return nil
 	}
@@ -351,7 +366,11 @@ func init() {
 			"renderings) built through the package's unmarshallers; at EVERY role ConsolidatedVarStack/VarMaps, gera.FlattenStack, Get on the three hierarchies, a {{k}} " +
 			"probe at each of the 6 template stages of Sequence.Execute and — at task leaves — the command line and a property built by " +
 			"BuildTaskCommand/BuildPropertyMap are compared with the Lean model; non-trivial = some key has >=2 defining sources on one root-to-leaf " +
-			"path; distinct by input text",
+			"path; (c) writes after load: workflow templates WITH iterators (JSON-list and begin/end ranges, nested, iteration variable possibly " +
+			"shadowing a key) loaded by the real ProcessTemplates, then a history of SetRuntimeVar / SetGlobalRuntimeVar / DeleteRuntimeVar / " +
+			"DeleteGlobalRuntimeVar calls on arbitrary roles of the loaded tree, then the same observation at EVERY role — 7 fixed shapes x every " +
+			"role x 9 histories, and random templates (<=14 loaded roles, 1-6 writes); non-trivial = some non-global write lands below the root; " +
+			"distinct by input text",
 		Shrink: shrinkCands,
 		Exhaustive: func(string) bool { return false }, // the exhaustive block is complete, the random block is a sample
 		Workers:    8,
@@ -360,11 +379,13 @@ func init() {
 			"gopkg.in/yaml.v3 unmarshalling of roles and task classes",
 			"hooks core/workflow/verif_hook_c14.go (VerifC14SetParent = setParent) and core/task/verif_hook_c14.go (VerifC14NewTask = the Task literal of newTaskForMesosOffer)",
 			"expr-lang/fasttemplate evaluation of a bare identifier",
+			"writes form: repos.Repo{h/p/r@x} as the workflow repository, addressing of loaded roles by child index through GetRoles()",
 		},
 		Assumptions: []string{
 			"keys probed are disjoint from the six task-special names written by buildSpecialVarStack",
 			"values contain no template syntax (template references between levels are C15's load model)",
 			"the configuration service (mock://) is not consulted when a field is a bare identifier",
+			"writes form: every aggregator has a child and every iterator a value (pruning of disabled/empty roles is C15's subject); a role's U is written after the load on every instance",
 		},
 	})
 	fw.RegisterGen(fw.GenFile{Name: "VarsFacts.lean", Make: genFacts})
